@@ -150,7 +150,8 @@ Fixpoint run_calls (lazy : bool) (s : crstate) (dirty : bool) (calls : list (cop
 Definition digest_s (c : sqstate) : sexp :=
   L [A (Z.of_nat (length (sq_buckets c))); A (Z.of_nat (length (sq_events c)));
      A (sq_seq_b c); A (sq_seq_e c);
-     A (sumZ (map er_data (sq_events c))); A (sumZ (map er_start (sq_events c)))].
+     A (sumZ (map er_data (sq_events c)) mod 1000000007);
+     A (sumZ (map er_start (sq_events c)) mod 1000000007)].
 
 (* digests of [apply_stmts c (firstn j qs)] for j = skip .. |qs| *)
 Fixpoint prefix_digests (skip : nat) (c : sqstate) (qs : list stmt) : list sexp :=
